@@ -208,14 +208,14 @@ def run_case(case):
     rng = random.Random(case["seed"])
     base = {"fam": fam}
     if fam == "hier":
-        g = gen_v2.gen_hierarchy(rng, max_flows=6, with_vars=rng.random() < 0.3, loops=rng.random() < 0.3, depth_bias=rng.random() < 0.5)
+        g = gen_v2.gen_hierarchy(rng, max_flows=6, with_vars=rng.random() < 0.3, loops=rng.random() < 0.3, depth_bias=rng.random() < 0.5, ext_end=rng.random() < 0.4)
         hist = []
         for _ in range(case["hlen"]):
             hist.append("FIN" if rng.random() < 0.3 else "E%d" % rng.randint(1, 3))
         base.update(key="hier:%d:%d" % (case["seed"], case["hlen"]), sample={"family": fam, "program": g["src"], "history": hist})
         return _drive(g["src"], hist, case["seed"], base)
     if fam == "exh":
-        g = gen_v2.gen_hierarchy(rng, max_flows=4, with_vars=False, loops=False)
+        g = gen_v2.gen_hierarchy(rng, max_flows=4, with_vars=False, loops=False, ext_end=rng.random() < 0.4)
         total = {"states": 0, "hist": 0}
         agg_facts = []
         rest = case["len"] - len(case["prefix"])
